@@ -1,5 +1,6 @@
 """Per-property configuration of the simulation checks: single source for bin/check and MANIFEST.json."""
 
+E1C = {'real': ['cppcms::service, applications_pool, http / scgi / fastcgi connection classes (src/http_api.cpp, scgi_api.cpp, fastcgi_api.cpp), private/http_parser.h, cgi_api.cpp (load_content, pending output), http::context/request/response, response stream buffers, gzip (zlib), page cache (thread_shared), thread pool, booster::aio io_service + reactor (epoll/poll/select) + stream_socket + acceptor, HTTP watchdog'], 'stub': ['kernel sockets / pipes / readiness / clock (sim/simk)', 'the web server in front of SCGI/FastCGI and the browsers (harness encoders/decoders in harness/wire_proto.h)', 'thread scheduler']}
 E2_COMPONENTS = {"real": ["cppcms::impl::mem_cache<thread_settings> (src/cache_storage.cpp)", "mem_cache<process_settings> + shmem_control + buddy_allocator (shared memory)", "private/hash_map.h",
                           "cppcms::cache_interface + triggers_recorder over a real cppcms::service / cache_pool"],
                  "stub": ["clock (time() read by the cache) - simulated, advanced by plan ops"]}
@@ -93,9 +94,57 @@ PROPS = {
    note="Trusts the simulated kernel's readiness semantics (level-triggered) and TSan; known finding xthread-cancel-io-lost is listed in known-findings.json.",
    technique="deterministic simulation: seeded thread scheduler + simulated epoll/poll/select, sockets and clock under the real io_service/thread_pool; counting-handler oracle; TSan",
    design_ref="DESIGN.md s4 C17, s3 E6"),
+ "C01": dict(engine="E1 wire", src="e1_wire", variants=["asan"], level="exploration",
+   seconds={"quick": 50, "thorough": 800},
+   rule="case = one real cppcms::service (reactor epoll|poll|select, 1..3 workers, buffer sizes 1..64K) serving 1..5 simulated connections x 1..4 well-formed requests each over http / scgi / fastcgi (sync or async mount, keep-alive / KEEP_CONN sequences), "
+        "each request with its own client-side segmentation (whole, few cuts, byte dribble), FastCGI PARAMS/STDIN record sizes and padding, channel capacities and read pace; the transport additionally splits reads/writes, injects EINTR and spurious readiness. "
+        "Oracle: the echo application's observation (every CGI variable, GET/POST fields, cookies, raw body) must equal an independent model of the request for that protocol; status 200, handler entered exactly once, response framing valid. "
+        "non-trivial = run in which a request had >= 2 segments or a body; distinct = distinct simulation trace hash",
+   fault_keys=["short_reads", "short_writes", "eagain", "eintr", "spurious_wakeups"],
+   probe_keys=["multi_segment_requests", "requests_with_body", "keepalive_followups", "chunked_responses", "reactor_epoll", "reactor_poll", "reactor_select"],
+   components=E1C,
+   assumptions=["generated requests stay inside the sub-language where RFC 3875/7230 and the cppcms documentation leave no choice (no '+' or invalid %-escapes in paths, token header names, no duplicate headers)",
+                "the simulated kernel follows Linux semantics for the calls cppcms makes (level-triggered readiness, short I/O, EAGAIN/EINTR) but is a model", "sampling of requests, segmentations and schedules"],
+   category="exploration",
+   text="Deterministic simulation of the whole service over simulated sockets: seeded request generation, segmentation, transport faults and thread schedules; the application's observation is compared with an independent request model for all three front-ends.",
+   note="Trusts the harness's own protocol encoders/decoders and request model (harness/wire_proto.h) and the simulated socket semantics.",
+   technique="deterministic simulation: real service on simulated sockets/clock/scheduler, seeded segmentation + fault injection, independent request model as oracle",
+   design_ref="DESIGN.md s4 C01, s3 E1"),
+ "C02": dict(engine="E1 wire", src="e1_wire", variants=["asan"], level="exploration",
+   seconds={"quick": 50, "thorough": 800},
+   rule="case = as C01, but at least one connection per run ends with a MALFORMED exchange: a valid encoding mutated by one of ~45 operators (truncate at any offset, bit flips, insert/delete, garbage, negative/huge/non-numeric/duplicate/mismatching Content-Length, endless or oversized headers, bare LF, NUL bytes, "
+        "SCGI length lies / missing comma / unterminated last string, FastCGI wrong version/type/role/request id, record and pair length lies, STDIN longer/shorter, GET_VALUES, stray records, PARAMS never closed, declared length over the limit) followed by close, half-close or silence; "
+        "well-formed probe requests run concurrently on the other connections. Oracle: no sanitizer report / signal / exception out of service::run(); every probe answered exactly as C01 demands; handler entered <= 1 per request; requests that cannot be served never reach the application and get status >= 400 or a close; "
+        "the offending connection is answered or closed within http.timeout+6 simulated seconds; no accepted connection stays open after all peers are gone. non-trivial = run with >= 1 malformed exchange and >= 1 probe; distinct = trace hash",
+   fault_keys=["malformed_exchanges", "short_reads", "short_writes", "eagain", "eintr", "spurious_wakeups"],
+   probe_keys=["malformed_refused_as_required", "exchanges", "keepalive_followups", "reactor_epoll", "reactor_poll", "reactor_select"],
+   components=E1C,
+   assumptions=["nothing is demanded about WHETHER cppcms tolerates a malformed input or WHICH error it picks, except for the listed classes that cannot be served", "ASan/UBSan (minus the nonnull-attribute check: memcpy(NULL,..,0) is not treated as memory-unsafe) decide memory safety",
+                "peer RST-on-close-with-unread-data is not modelled (closes are graceful)"],
+   category="exploration",
+   text="Deterministic simulation with fault injection at the byte level: grammar-mutated and random request bytes, peer close/half-close/stall at arbitrary offsets, concurrent well-formed probes; sanitizers and the probes' exact answers are the oracle.",
+   note="Trusts ASan/UBSan, the mutation operators' classification of 'cannot be served', and the simulated socket semantics.",
+   technique="deterministic simulation with byte-level fault injection (mutated requests, peer close/half-close/stall), sanitizers + concurrent probe requests as oracle",
+   design_ref="DESIGN.md s4 C02, s3 E1"),
+ "C03": dict(engine="E1 wire", src="e1_wire", variants=["asan"], level="exploration",
+   seconds={"quick": 50, "thorough": 800},
+   rule="case = a 'writer' application executes a generated script (0..40 writes of 0..200000 bytes incl. byte-at-a-time, flushes, setbuf(k) incl. 0, headers, cookies, content type, io_mode normal|nogzip|asynchronous, full/partial async buffering, optional page cache key shared between requests) "
+        "for http 1.0/1.1 (keep-alive, Content-Length or chunked), scgi, fastcgi; gzip on/off; client channel capacity 1 B..256 KiB and read pace from the plan; every writev may accept any prefix or EAGAIN. "
+        "Oracle: an independent de-framer (chunked / Content-Length / until-close / FastCGI STDOUT records + END_REQUEST) yields the body, gunzipped when encoded, which must equal the script's bytes (position-dependent pattern), one header block with every header/cookie set, a cached page byte-identical to a stored one. "
+        "non-trivial = run with >= 2 segments or body; distinct = trace hash",
+   fault_keys=["short_writes", "eagain", "short_reads", "eintr", "spurious_wakeups"],
+   probe_keys=["writer_responses", "gzip_responses", "chunked_responses", "page_cache_hits", "keepalive_followups"],
+   components=E1C,
+   assumptions=["raw io modes (application writes its own headers) are not generated", "client reset / time-out while the response is written is exercised by C02's configuration, not here"],
+   category="exploration",
+   text="Deterministic simulation of the response path: seeded write scripts against simulated sockets that accept arbitrary prefixes; an independent de-framer reconstructs what the client received and compares it byte for byte with what the application wrote.",
+   note="Trusts the harness's de-framers (HTTP chunked/length, CGI, FastCGI records, zlib inflate) and the simulated socket semantics.",
+   technique="deterministic simulation: real response stack on simulated sockets with arbitrary partial writes / EAGAIN, independent de-framer + byte pattern oracle",
+   design_ref="DESIGN.md s4 C03, s3 E1"),
 }
 
 ENGINES = [
+ {"name": "E1 wire", "path": "harness/e1_wire.cpp", "serves_properties": ["C01", "C02", "C03"], "kind_free_text": "real cppcms::service with http/scgi/fastcgi front-ends on simulated sockets, clock and scheduler; simulated peers"},
  {"name": "E6 loop", "path": "harness/e6_loop.cpp", "serves_properties": ["C17"], "kind_free_text": "real io_service/reactors/timers/stream_socket/thread_pool on simulated descriptors, clock and scheduler"},
  {"name": "E7 crashfs", "path": "harness/e7_crashfs.cpp", "serves_properties": ["C18"], "kind_free_text": "real session_file_storage over the simulated disk; crash states enumerated from the write journal"},
  {"name": "E3 cache-conc", "path": "harness/e3_cache_conc.cpp", "serves_properties": ["C09"], "kind_free_text": "real threads on the real cache under the seeded scheduler; TSan/ASan + linearizability checker"},
